@@ -24,7 +24,7 @@ from fractions import Fraction
 from harness import common
 from harness.common import Failure, lean_run
 
-PROP_MODULES = ["ArmiVerif.Props.C19", "ArmiVerif.Props.C19Strings", "ArmiVerif.Props.C19Table"]
+PROP_MODULES = ["ArmiVerif.Props.C19", "ArmiVerif.Props.C19Strings", "ArmiVerif.Props.C19Table", "ArmiVerif.Props.C19Material"]
 GEN_MODULES = ["ArmiVerif.Gen.NuclideTable", "ArmiVerif.Props.C19Table"]
 PARTIAL = ("identifier STRINGS are proved injective (Props/C19Strings.lean: name, label, MCNP, AAAZZZS, database name as the "
            "character sequences Python produces, tied by exhaustive string comparison); MC2 ids are data (uniqueness per library "
@@ -369,6 +369,9 @@ def run_directory(ctx):
     req, impl, cases = [], [], []
     kinds = collections.Counter()
     tableKeys = {(r["z"], r["a"], r["s"]): r for r in t["rows"]}
+    a0OfZ = {}
+    for r in t["rows"]:
+        a0OfZ[r["z"]] = min(a0OfZ.get(r["z"], r["a"]), r["a"])
     seenKeys = set()
     idsets = collections.defaultdict(dict)
 
@@ -462,6 +465,14 @@ def run_directory(ctx):
             req.append(f"ids {n.z} {n.a} {n.state} {e.symbol}")
             impl.append(f"{n.name} {n.label} {n.getMcnpId()} {aid} {n.getDatabaseName()}")
             cases.append(case)
+            # the proved decoders applied to the ids the IMPLEMENTATION produced give back this nuclide's (z, a, state)
+            if aid.isdigit() and n.getMcnpId().isdigit() and n.z in a0OfZ:
+                req.append(f"mcnpdec {a0OfZ[n.z]} {int(n.getMcnpId())}")
+                impl.append(f"{n.z} {n.a} {n.state}")
+                cases.append(dict(case, decode="MCNP id", id=n.getMcnpId()))
+                req.append(f"aaadec {int(aid)}")
+                impl.append(f"{n.z} {n.a} {n.state}")
+                cases.append(dict(case, decode="AAAZZZS id", id=aid))
             key = (n.z, n.a, n.state)
             seenKeys.add(key)
             row = tableKeys.get(key)
@@ -473,9 +484,74 @@ def run_directory(ctx):
             cases.append(case)
         ctx.case(("nuclide", n.name), nontrivial=True,
                  sample={"nuclide": n.name, "label": n.label, "mcnp": getattr(n, "getMcnpId", lambda: None)()} if n.name in ("U235", "AM242M") else None)
+    # elements.dat as the translator read it vs armi's own loader, row by row (both directions)
+    implEl = {z: e.symbol for z, e in elements.byZ.items()}
+    genEl = {z: sym for z, sym in t["elements"]}
+    if implEl != genEl or len(genEl) != len(t["elements"]):
+        diff = sorted(set(implEl.items()) ^ set(genEl.items()))[:6]
+        ctx.disagree("Gen/NuclideTable elements vs elements.byZ", "element rows", str(diff), f"{len(genEl)} vs {len(implEl)}")
+    for z, e in elements.byZ.items():
+        if elements.bySymbol.get(e.symbol) is not e or elements.byName.get(e.name) is not e:
+            ctx.fail("element-lookup", "an element is found under its atomic number, its symbol and its name", {"z": z, "symbol": e.symbol})
+    # OBSERVATION (outside the property statement, therefore not a failure): the element look-ups by symbol / by name of
+    # elements.py fail for every element (getName indexes byName with a symbol; getSymbol/getElementZ lower-case the name while
+    # byName is keyed 'Neon'); see notes/candidate-fixes-C19/elements-lookup-by-symbol-and-name.diff
+    obs = collections.Counter()
+    for z, e in elements.byZ.items():
+        for label, f in (("elements.getName(symbol=)", lambda: elements.getName(symbol=e.symbol) == e.name),
+                         ("elements.getSymbol(name=)", lambda: elements.getSymbol(name=e.name) == e.symbol),
+                         ("elements.getElementZ(name=)", lambda: elements.getElementZ(name=e.name) == z),
+                         ("elements.getElementZ(symbol=)", lambda: elements.getElementZ(symbol=e.symbol) == z),
+                         ("elements.getName(z)", lambda: elements.getName(z) == e.name)):
+            try:
+                obs[label + (" ok" if f() else " wrong")] += 1
+            except KeyError:
+                obs[label + " KeyError"] += 1
+    ctx.extra["observation_element_lookups"] = dict(obs)
     if seenKeys != set(tableKeys):
         ctx.disagree("Gen/NuclideTable rows vs nuclideBases.instances", "row sets", sorted(set(tableKeys) - seenKeys)[:5],
                      sorted(seenKeys - set(tableKeys))[:5])
+    # --- the public retrieval helpers (continuation round): spelled names (U-235, U_235), scan by name, MC2 label, isotopics
+    special = [n for n in inst if not isinstance(n, nb.NuclideBase)]
+    sampleN = special + ctx.rng.sample([n for n in inst if isinstance(n, nb.NuclideBase)], ctx.pick(250, 1500))
+    for n in sampleN:
+        if n.name == "AM242":
+            continue
+        case = {"nuclide": n.name, "class": type(n).__name__}
+        spellings = [n.name]
+        m = NAME_RE.match(n.name)
+        if m and isinstance(n, nb.NuclideBase):
+            rest = n.name[len(m.group(1)):]
+            spellings += [m.group(1) + "-" + rest, m.group(1) + "_" + rest]
+        for sp in spellings:
+            for fname, f in (("nucDir.getNuclide", nucDir.getNuclide), ("nucDir.getNuclideFromName", nucDir.getNuclideFromName)):
+                try:
+                    got = f(sp)
+                except Exception as e:  # noqa
+                    got = repr(e)
+                if got is not n:
+                    ctx.fail("lookup-by-name", f"{fname}(name) returns that nuclide, also for the spellings U-235 / U_235", dict(case, spelling=sp, function=fname),
+                             observed=getattr(got, "name", got), expected=n.name)
+        try:
+            ok = nb.fromName(n.name) is n and nucDir.getMc2Label(n.name) == n.label
+        except Exception as e:  # noqa
+            ok = False
+        if not ok:
+            ctx.fail("lookup-by-name", "nuclideBases.fromName(name) finds exactly that nuclide and nucDir.getMc2Label(name) is its label", case)
+        try:
+            iso = nb.getIsotopics(n.name)
+            if isinstance(n, nb.NuclideBase):
+                okI = len(iso) == 1 and iso[0] is n
+            elif isinstance(n, nb.NaturalNuclideBase):
+                okI = [id(x) for x in iso] == [id(x) for x in n.element.getNaturalIsotopics()] and all(x.z == n.z for x in iso)
+            else:
+                okI = iso == []
+        except Exception as e:  # noqa
+            okI = False
+        if not okI:
+            ctx.fail("isotopics-of-name", "getIsotopics(name) is the nuclide itself, the natural isotopes of an elemental nuclide, or nothing for pseudo-nuclides", case)
+        ctx.evaluations += 1
+    ctx.count("retrieval helpers checked on nuclides", len(sampleN))
     # --- no stale dictionary entries: every value is an instance and the key is one of its ids (aliases counted)
     live = {id(n) for n in inst}
     for what, d, ids_of in (("name", nb.byName, lambda n: [n.name]), ("label", nb.byLabel, lambda n: [n.label]),
@@ -740,6 +816,43 @@ def material_classes():
     return out
 
 
+_SRC_NUMS = {}
+
+
+def source_temperatures(cls, lo, hi, rng, cap):
+    """temperatures at which a piecewise correlation may switch: every numeric literal of the material's module (and of the modules
+    of its base classes inside armi.materials) that falls inside [lo, hi] read as the stated unit or converted K<->C, with the
+    adjacent doubles and +-0.25 on both sides"""
+    import ast
+
+    nums = set()
+    for k in cls.__mro__:
+        modname = getattr(k, "__module__", "")
+        if not modname.startswith("armi.materials") or modname.endswith(".material"):
+            continue
+        if modname not in _SRC_NUMS:
+            vals = set()
+            try:
+                tree = ast.parse(inspect.getsource(sys.modules[modname]))
+                for n in ast.walk(tree):
+                    if isinstance(n, ast.Constant) and isinstance(n.value, (int, float)) and not isinstance(n.value, bool):
+                        if math.isfinite(float(n.value)):
+                            vals.add(float(n.value))
+            except (OSError, TypeError, SyntaxError, KeyError):
+                pass
+            _SRC_NUMS[modname] = vals
+        nums |= _SRC_NUMS[modname]
+    centres = sorted({c for v in nums for c in (v, v - 273.15, v + 273.15) if lo <= c <= hi})
+    if len(centres) > cap:
+        centres = sorted(rng.sample(centres, cap))
+    pts = set()
+    for c in centres:
+        for p in (c, math.nextafter(c, -math.inf), math.nextafter(c, math.inf), c - 0.25, c + 0.25):
+            if lo <= p <= hi:
+                pts.add(p)
+    return sorted(pts), len(centres)
+
+
 def eval_material_point(m, fn, unit, T):
     with common.quiet():
         f = getattr(m, fn)
@@ -850,7 +963,9 @@ def run_materials(ctx):
             grid = [lo + (hi - lo) * i / (npts - 1) for i in range(npts)] + [ctx.rng.uniform(lo, hi) for _ in range(5)]
             # exact end points and densely just inside them (top and bottom 3 K in 0.25 K steps)
             edge = [k * 0.25 for k in range(0, 13)]
-            grid = sorted(set(grid + [lo + d for d in edge if lo + d <= hi] + [hi - d for d in edge if hi - d >= lo] + [lo, hi]))
+            switch, ncentres = source_temperatures(c, lo, hi, ctx.rng, ctx.pick(40, 400))
+            ctx.count("material property grids: candidate switch points taken from the source literals", ncentres)
+            grid = sorted(set(grid + switch + [lo + d for d in edge if lo + d <= hi] + [hi - d for d in edge if hi - d >= lo] + [lo, hi]))
             bads = []
             twoway = []
             notimpl = False
@@ -906,8 +1021,147 @@ def run_materials(ctx):
     return len(classes)
 
 
+def run_material_resolution(ctx):
+    """materials are requested BY NAME (blueprints): every library class resolves to itself under the default namespace order and
+    under its full path; an ordered plugin namespace takes precedence exactly for the names it defines; the order is restored"""
+    import types
+
+    from armi import materials
+
+    classes = material_classes()
+    order0 = list(materials._MATERIAL_NAMESPACE_ORDER)
+    for c in classes:
+        name = c.__name__
+        case = {"material": name}
+        for label, arg in (("simple name", name), ("module:class path", f"{c.__module__}:{name}")):
+            try:
+                got = materials.resolveMaterialClassByName(arg)
+            except Exception as e:  # noqa
+                got = repr(e)
+            if got is not c and not (inspect.isclass(got) and got.__name__ == name and label == "simple name"
+                                     and getattr(materials, name, None) is got):
+                ctx.fail(f"material-resolve-by-name-{name}", "every library material class is found under its name", dict(case, how=label),
+                         observed=str(got), expected=str(c))
+            ctx.evaluations += 1
+        ctx.case(("material-resolution", name), nontrivial=True)
+    # a plugin namespace defining two library names and one new name
+    plug = types.ModuleType("verif_plugin_materials")
+    picks = [c for c in classes if c.__name__ in ("UO2", "HT9")]
+    for c in picks:
+        setattr(plug, c.__name__, type(c.__name__, (c,), {"__module__": "verif_plugin_materials"}))
+    other = next(c for c in classes if c.__name__ == "Sodium")
+    plug.VerifOnly = type("VerifOnly", (other,), {"__module__": "verif_plugin_materials"})
+    sys.modules["verif_plugin_materials"] = plug
+    try:
+        for orderName, order in (("plugin first", ["verif_plugin_materials", "armi.materials"]),
+                                 ("library first", ["armi.materials", "verif_plugin_materials"])):
+            for viaGlobal in (False, True):
+                if viaGlobal:
+                    materials.setMaterialNamespaceOrder(list(order))
+                for nm in [c.__name__ for c in picks] + ["Sodium", "VerifOnly"]:
+                    want = None
+                    for ns in order:
+                        cand = getattr(sys.modules[ns] if ns != "armi.materials" else materials, nm, None)
+                        if cand is not None:
+                            want = cand
+                            break
+                    try:
+                        got = materials.resolveMaterialClassByName(nm) if viaGlobal else materials.resolveMaterialClassByName(nm, list(order))
+                    except Exception as e:  # noqa
+                        got = repr(e)
+                    if got is not want:
+                        ctx.fail("material-namespace-order", "a material name resolves to the first namespace of the configured order that defines it",
+                                 {"name": nm, "order": order, "via": "setMaterialNamespaceOrder" if viaGlobal else "argument"},
+                                 observed=str(got), expected=str(want))
+                    else:
+                        try:
+                            with common.quiet():
+                                inst = got()
+                            okc = bool(inst.massFrac) or nm in ()
+                        except Exception as e:  # noqa
+                            okc = False
+                        if not okc and nm != "VerifOnly":
+                            ctx.fail("material-namespace-order", "a material resolved through a plugin namespace can be instantiated",
+                                     {"name": nm, "order": order})
+                    ctx.evaluations += 1
+                    ctx.case(("material-namespace", orderName, viaGlobal, nm), nontrivial=True)
+    finally:
+        materials.setMaterialNamespaceOrder(order0)
+        sys.modules.pop("verif_plugin_materials", None)
+    if materials._MATERIAL_NAMESPACE_ORDER != order0:
+        ctx.fail("material-namespace-order", "the namespace order can be restored", {}, observed=materials._MATERIAL_NAMESPACE_ORDER)
+
+
+def run_material_formulas(ctx):
+    """Material.density / pseudoDensity (material.py base-class formulas) against the model
+    for every material that uses them, on a temperature grid with both end points; the hypotheses of matDensity_pos
+    (reference density > 0, expansion > -100 %) are evaluated on the real objects"""
+    from armi.materials import material as mm
+    from armi.utils.units import getTk
+
+    req, checks = [], []
+    npts = ctx.pick(7, 40)
+    for c in material_classes():
+        name = c.__name__
+        try:
+            with common.quiet():
+                m = c()
+        except Exception:  # noqa  (reported by run_materials)
+            continue
+        baseD = c.density is mm.Material.density
+        baseP = c.pseudoDensity is mm.Material.pseudoDensity
+        if not (baseD or baseP):
+            ctx.count("material formulas: class overrides density and pseudoDensity (not modelled)")
+            continue
+        pvt = dict(getattr(m, "propertyValidTemperature", {}) or {})
+        src = next((k for k in DENSITY_KEYS + PERCENT_KEYS + ("linear expansion",) if k in pvt), None)
+        (lo, hi), unit = pvt[src] if src else ((300.0, 900.0), "K")
+        if not lo < hi:
+            continue
+        grid = [lo + (hi - lo) * i / (npts - 1) for i in range(npts)]
+        grid[-1] = hi
+        pts = []
+        for T in grid:
+            Tk = T if unit == "K" else getTk(Tc=T)
+            try:
+                with common.quiet():
+                    dLL = float(m.linearExpansionPercent(Tk=Tk))
+                    d = float(m.density(Tk=Tk)) if baseD else None
+                    p = float(m.pseudoDensity(Tk=Tk)) if baseP else None
+            except Exception:  # noqa  (non-finite / refusing points are run_materials' business)
+                continue
+            if not math.isfinite(dLL):
+                continue
+            ref = m.refDens
+            case = {"material": name, "Tk": Tk, "refDens": ref, "dLL": dLL}
+            hyp = isinstance(ref, (int, float)) and ref > 0 and dLL > -100
+            ctx.count("hypotheses of matDensity_pos on the real material: " + ("hold" if hyp else "fail (no reference density)"))
+            if hyp and ((d is not None and not d > 0) or (p is not None and not p > 0)):
+                ctx.fail(f"material-density-formula-{name}", "with a positive reference density and an expansion above -100 % density and "
+                         "pseudo-density are positive", case, observed=[d, p])
+            if isinstance(ref, (int, float)):
+                req.append(f"matdens {common.rat(float(ref))} {common.rat(dLL)}")
+
+                def chk(line, case=case, d=d, p=p):
+                    if line in ("reject", "bad-op"):
+                        return ctx.disagree("Material.density/pseudoDensity vs model", case, line, [d, p])
+                    md, mp = (Fraction(x) for x in line.split(" "))
+                    ok = (d is None or common.close(d, md, 1e-11)) and (p is None or common.close(p, mp, 1e-11))
+                    return ok or ctx.disagree("Material.density/pseudoDensity vs model", case, [float(md), float(mp)], [d, p])
+                checks.append(chk)
+            pts.append((T, Tk, dLL))
+            ctx.evaluations += 1
+        ctx.case(("material-formulas", name), nontrivial=True)
+    model = lean_run("Nuclide", req)
+    for line, fn in zip(model, checks):
+        fn(line)
+    ctx.count("material formula requests (density, pseudoDensity)", len(req))
+
+
 def run(ctx):
     n = run_directory(ctx)
+    run_material_resolution(ctx)
+    run_material_formulas(ctx)
     run_mutators(ctx)
     nm = run_materials(ctx)
     ctx.extra["materials_half"] = ("exhaustive enumeration of the finite material library at SAMPLED temperatures (grid over each "
@@ -931,6 +1185,10 @@ def replay(ctx, payload):
             return hits[0].to_json()
     if key.startswith(("changeLabel-", "rebuild-", "addGlobalNuclide-")):
         run_mutators(sub)
+    elif key.startswith(("material-resolve", "material-namespace")):
+        run_material_resolution(sub)
+    elif key.startswith("material-density-formula"):
+        run_material_formulas(sub)
     elif key.startswith("material-"):
         run_materials(sub)
     else:
